@@ -130,16 +130,21 @@ Open Scope nat_scope.
 
 Definition active (p : cpc) : nat := match p with CIdle | CRet => 0 | _ => 1 end.
 Definition b2n (b : bool) : nat := if b then 1 else 0.
+Definition activeO (p : lpc) : nat := match p with LErr _ c => active c | _ => 0 end.
 
 Record inv (s : state) : Prop := mkInv {
   inv_closed_req : closedChan s = true -> closeRequested s = true;
   inv_nclosed : nclosed s = b2n (closedChan s);
-  inv_one_closer : active (pC1 s) + active (pC2 s) + b2n (closedChan s) = b2n (closeRequested s);
-  inv_queue : closedChan s = true -> sendMoved s = true /\ sendFull s = false
+  inv_one_closer : active (pC1 s) + active (pC2 s) + activeO (pO s) + b2n (closedChan s) = b2n (closeRequested s);
+  inv_queue : closedChan s = true -> sendMoved s = true /\ sendFull s = false;
+  inv_held : forall h c, pO s = LErr h c -> h = keepLock s
 }.
 
-Lemma inv_init : forall c a, inv (init c a).
+Lemma inv_init_v : forall k c a, inv (init_v k c a).
 Proof. intros; constructor; simpl; intros; try discriminate; reflexivity. Qed.
+
+Lemma inv_init : forall c a, inv (init c a).
+Proof. intros; apply inv_init_v. Qed.
 
 Ltac brk :=
   repeat match goal with
@@ -150,8 +155,8 @@ Ltac brk :=
 
 Lemma call_close_inv : forall one s s', inv s -> call_close one s = Some s' -> inv s'.
 Proof.
-  intros one s s' [I1 I2 I3 I4] H. unfold call_close, close_begin in H.
-  destruct one; simpl in H; brk; constructor; simpl in *; intros; auto;
+  intros one s s' [I1 I2 I3 I4 I5] H. unfold call_close, close_begin in H.
+  destruct one; simpl in H; brk; constructor; simpl in *; intros; auto; try (eapply I5; eassumption);
   try (rewrite ?Heqc in *; simpl in *);
   repeat match goal with H : closeRequested _ = _ |- _ => rewrite H in * end;
   try (destruct (closedChan s) eqn:CC; [specialize (I1 eq_refl); congruence|]); simpl in *; try lia; try congruence; auto;
@@ -160,8 +165,8 @@ Qed.
 
 Lemma step_closer_inv : forall one s s', inv s -> step_closer one s = Some s' -> inv s'.
 Proof.
-  intros one s s' [I1 I2 I3 I4] H. unfold step_closer in H.
-  destruct one; simpl in H; brk; constructor; simpl in *; intros; auto;
+  intros one s s' [I1 I2 I3 I4 I5] H. unfold step_closer in H.
+  destruct one; simpl in H; brk; constructor; simpl in *; intros; auto; try (eapply I5; eassumption);
   repeat match goal with H : pC1 _ = _ |- _ => rewrite H in * end;
   repeat match goal with H : pC2 _ = _ |- _ => rewrite H in * end;
   simpl in *;
@@ -175,22 +180,29 @@ Proof.
   destruct l; simpl in H;
   try (eapply call_close_inv; eassumption);
   try (eapply step_closer_inv; eassumption).
-  all: try (destruct I as [I1 I2 I3 I4]; brk; constructor; simpl in *; intros; auto;
+  all: try (destruct I as [I1 I2 I3 I4 I5]; brk; constructor; simpl in *; intros; auto; try (eapply I5; eassumption);
             try (destruct (I4 ltac:(assumption)); split; congruence); try congruence; fail).
-  all: try (destruct I as [I1 I2 I3 I4]; brk; constructor; simpl in *; intros; auto;
+  all: try (destruct I as [I1 I2 I3 I4 I5]; brk; constructor; simpl in *; intros; auto; try (eapply I5; eassumption);
             destruct (closedChan s) eqn:CC; try discriminate;
             try (pose proof (I1 eq_refl)); try (destruct (I4 eq_refl)); simpl in *; try congruence; try (split; congruence); fail).
-  all: try (destruct I as [I1 I2 I3 I4]; brk; constructor; simpl in *; intros; auto;
+  all: try (destruct I as [I1 I2 I3 I4 I5]; brk; constructor; simpl in *; intros; auto; try (eapply I5; eassumption);
             repeat match goal with Hq : closeRequested ?x = _ |- context [closeRequested ?x] => rewrite Hq end; simpl; auto;
             destruct (closedChan s) eqn:CC; try discriminate;
             try (pose proof (I1 eq_refl)); try (destruct (I4 eq_refl)); simpl in *; try congruence; try (split; congruence); fail).
+  (* TO *)
+  - destruct I as [I1 I2 I3 I4 I5]. destruct (pO s) eqn:PO; try discriminate; simpl in *; try (destruct c).
+    all: brk; constructor; simpl in *; intros; auto; try discriminate;
+         try (match goal with Hx : LErr _ _ = LErr _ _ |- _ => inversion Hx; subst; try reflexivity; eapply (I5 _ _ eq_refl) end);
+         repeat match goal with Hq : closeRequested ?x = _ |- context [closeRequested ?x] => rewrite Hq end;
+         destruct (closedChan s) eqn:CC; destruct (closeRequested s) eqn:CR; simpl in *; try lia; try congruence; auto;
+         try (destruct (attached s); simpl; lia); try (destruct (I4 eq_refl); split; congruence).
   (* TU *)
   - destruct (pU s) eqn:PU; try discriminate.
     + destruct (pC2 s) eqn:PC; try (eapply step_closer_inv; eassumption).
       * eapply call_close_inv; eassumption.
-      * inversion H; subst; clear H. destruct I as [I1 I2 I3 I4]. constructor; simpl in *; auto.
+      * inversion H; subst; clear H. destruct I as [I1 I2 I3 I4 I5]. constructor; simpl in *; intros; auto; try (eapply I5; eassumption).
         rewrite PC in I3; simpl in *. lia.
-    + destruct I as [I1 I2 I3 I4]; brk; constructor; simpl in *; auto.
+    + destruct I as [I1 I2 I3 I4 I5]; brk; constructor; simpl in *; intros; auto; rewrite ?Heql0 in *; simpl; auto; try discriminate.
 Qed.
 
 Lemma run_inv : forall ls s s', inv s -> run s ls = Some s' -> inv s'.
@@ -207,10 +219,10 @@ Proof. intros s (c & a & ls & H). eapply run_inv; [apply inv_init|eauto]. Qed.
 
 (* closed exactly once: close(closedChan) is never executed twice, in any interleaving *)
 Lemma closed_at_most_once : forall s, reachable s -> nclosed s <= 1.
-Proof. intros s R. destruct (reachable_inv s R) as [_ I2 _ _]. rewrite I2. destruct (closedChan s); simpl; lia. Qed.
+Proof. intros s R. destruct (reachable_inv s R) as [_ I2 _ _ _]. rewrite I2. destruct (closedChan s); simpl; lia. Qed.
 
 Lemma closed_exactly_once : forall s, reachable s -> closedChan s = true -> nclosed s = 1.
-Proof. intros s R H. destruct (reachable_inv s R) as [_ I2 _ _]. rewrite I2, H. reflexivity. Qed.
+Proof. intros s R H. destruct (reachable_inv s R) as [_ I2 _ _ _]. rewrite I2, H. reflexivity. Qed.
 
 (* a later Close is a no-op that returns at once: nothing but the caller's own program counter changes *)
 Lemma later_close_noop : forall (one : bool) s, closeRequested s = true -> (if one then pC1 s else pC2 s) = CIdle ->
@@ -219,7 +231,7 @@ Proof. intros one s H P. unfold call_close. rewrite P, H. reflexivity. Qed.
 
 (* only one caller ever runs the closing sequence *)
 Lemma single_closer : forall s, reachable s -> active (pC1 s) + active (pC2 s) <= 1.
-Proof. intros s R. destruct (reachable_inv s R) as [_ _ I3 _]. destruct (closeRequested s), (closedChan s); simpl in *; lia. Qed.
+Proof. intros s R. destruct (reachable_inv s R) as [_ _ I3 _ _]. destruct (closeRequested s), (closedChan s); simpl in *; lia. Qed.
 
 (* closedChan, closeRequested, connDL, udone never go back *)
 Lemma step_monotone : forall l s s', step l s = Some s' ->
@@ -281,14 +293,15 @@ Lemma unblock_loops : forall s, closedChan s = true ->
   (pI s = LRun -> exists s', step TI s = Some s' /\ pI s' = LExited)
   /\ (pI s = LRecvSpace -> exists s', step TI s = Some s' /\ pI s' = LRun)
   /\ (pO s = LRun -> exists s', step TO s = Some s' /\ pO s' = LExited)
-  /\ (pO s = LConnWrite -> net_ok s = true -> exists s', step TO s = Some s' /\ pO s' = LRun)
+  /\ (pO s = LConnWrite -> net_ok s = true -> exists s', step TO s = Some s' /\ (pO s' = LRun \/ pO s' = LErr (keepLock s) CIdle))
   /\ (pE s = EDeliver -> exists s', step TE s = Some s' /\ pE s' = ERun).
 Proof.
   intros s H. repeat split; intros; simpl.
   - rewrite H0, H. eexists; split; reflexivity.
   - rewrite H0, H. eexists; split; reflexivity.
   - rewrite H0, H. eexists; split; reflexivity.
-  - rewrite H0, H1. eexists; split; reflexivity.
+  - rewrite H0. unfold net_ok in H1. destruct (netStalled s), (connDL s), (netBroken s); simpl in *; try discriminate;
+    eexists; (split; [reflexivity|]); simpl; auto.
   - rewrite H0, H. rewrite orb_true_r. eexists; split; reflexivity.
 Qed.
 
@@ -402,7 +415,7 @@ Proof. vm_compute. eexists. repeat split; reflexivity. Qed.
 (* the underlay / mux Close sets the connection deadline first: from then on the stalled write returns, the lock
    is released and the closing sequence completes *)
 Lemma underlay_close_releases : forall s, run (init true true) stall_trace = Some s ->
-  exists s', run s [ACallUnderlayClose; TO; TC1; TC1; TC1; TO; TI; TU; TU; TU] = Some s'
+  exists s', run s [ACallUnderlayClose; TO; TO; TO; TC1; TC1; TC1; TO; TI; TU; TU; TU] = Some s'
     /\ closedChan s' = true /\ pC1 s' = CRet /\ pO s' = LExited /\ pI s' = LExited /\ pU s' = URet /\ udone s' = true /\ nclosed s' = 1.
 Proof.
   intros s H. vm_compute in H. inversion H; subst; clear H. vm_compute. eexists. repeat split; reflexivity.
@@ -451,9 +464,110 @@ Lemma unblock_waitpoints_all : forall s, inv s -> closedChan s = true ->
   /\ (pI s = LRun -> exists s', step TI s = Some s' /\ pI s' = LExited)
   /\ (pI s = LRecvSpace -> exists s', step TI s = Some s' /\ pI s' = LRun)
   /\ (pO s = LRun -> exists s', step TO s = Some s' /\ pO s' = LExited)
-  /\ (pO s = LConnWrite -> net_ok s = true -> exists s', step TO s = Some s' /\ pO s' = LRun)
+  /\ (pO s = LConnWrite -> net_ok s = true -> exists s', step TO s = Some s' /\ (pO s' = LRun \/ pO s' = LErr (keepLock s) CIdle))
   /\ (pE s = EDeliver -> exists s', step TE s = Some s' /\ pE s' = ERun).
 Proof.
   intros s I H. destruct (unblock_writer s I H) as (W1 & W2 & W3). destruct (unblock_loops s H) as (L1 & L2 & L3 & L4 & L5).
   repeat split; auto. intros a P. eapply unblock_reader; eauto.
 Qed.
+
+
+(* --- the write-error path of the output loop ------------------------------------------------------------ *)
+
+Lemma step_keepLock : forall l s s', step l s = Some s' -> keepLock s' = keepLock s.
+Proof.
+  intros l s s' H.
+  assert (CC : forall one s s', call_close one s = Some s' -> keepLock s' = keepLock s).
+  { clear. intros one s s' H. unfold call_close, close_begin in H. destruct one; simpl in H; brk; reflexivity. }
+  assert (SC : forall one s s', step_closer one s = Some s' -> keepLock s' = keepLock s).
+  { clear. intros one s s' H. unfold step_closer in H. destruct one; simpl in H; brk; reflexivity. }
+  destruct l; simpl in H; try (eapply SC; eassumption); try (eapply CC; eassumption).
+  all: try (brk; reflexivity).
+  destruct (pU s) eqn:PU; try discriminate.
+  - destruct (pC2 s) eqn:PC; try (eapply SC; eassumption); try (eapply CC; eassumption).
+    inversion H; subst; reflexivity.
+  - brk; reflexivity.
+Qed.
+
+Lemma run_keepLock : forall ls s s', run s ls = Some s' -> keepLock s' = keepLock s.
+Proof.
+  induction ls; simpl; intros s s' H.
+  - inversion H; reflexivity.
+  - destruct (step a s) eqn:E; [|discriminate]. rewrite (IHls _ _ H). eapply step_keepLock; eauto.
+Qed.
+
+Lemma reachable_keepLock : forall s, reachable s -> keepLock s = false.
+Proof. intros s (c & a & ls & H). rewrite (run_keepLock _ _ _ H). reflexivity. Qed.
+
+(* what is left of the closing sequence, whoever runs it *)
+Definition closing_measure (s : state) : nat := mC (pC1 s) + mC (pC2 s) + mO (pO s).
+
+Ltac go l tac :=
+  exists l; eexists; split; [simpl; tauto | split; [simpl; unfold step_closer; simpl; tac; reflexivity | simpl; tac; simpl; lia]].
+
+(* Once closeRequested is set on a connection whose I/O fails (deadline set by the underlay Close, or connection
+   broken), and the code's lock discipline holds (keepLock = false), SOME thread of the closing sequence can take a
+   step that lowers the closing measure - in every reachable state, so for every interleaving: the output loop that
+   met the write error never waits for a lock that it holds itself, and whoever won the CAS reaches close(closedChan). *)
+Lemma output_error_close_progress : forall s,
+  inv s -> keepLock s = false -> (connDL s = true \/ netBroken s = true) ->
+  closeRequested s = true -> closedChan s = false ->
+  exists l s', In l [TC1; TC2; TO] /\ step l s = Some s' /\ closing_measure s' < closing_measure s.
+Proof.
+  intros s [I1 I2 I3 I4 I5] K N CR CC. unfold closing_measure.
+  assert (NO : net_ok s = true) by (unfold net_ok; destruct N as [N|N]; rewrite N; auto with bool).
+  assert (DB : connDL s || netBroken s = true) by (destruct N as [N|N]; rewrite N; auto with bool).
+  rewrite CR, CC in I3. simpl in I3.
+  assert (HO : forall c, pO s = LErr true c -> False) by (intros c E; pose proof (I5 _ _ E); congruence).
+  destruct (outputErr s) eqn:OE.
+  all: destruct (olock_free s) eqn:F.
+  all: destruct (pC1 s) eqn:P1; simpl in I3; try (destruct n).
+  all: try (go TC1 ltac:(rewrite ?P1, ?F, ?NO, ?OE; simpl); fail).
+  all: destruct (pC2 s) eqn:P2; simpl in I3; try lia; try (destruct n).
+  all: try (go TC2 ltac:(rewrite ?P1, ?P2, ?F, ?NO, ?OE; simpl); fail).
+  all: destruct (pO s) eqn:PO; simpl in I3; try lia.
+  all: try (destruct held; [exfalso; eapply HO; reflexivity|]).
+  all: try (destruct c; simpl in I3; try lia).
+  all: try (unfold olock_free in F; rewrite ?P1, ?P2, ?PO in F; simpl in F; discriminate F).
+  all: try (go TO ltac:(rewrite ?PO, ?DB, ?NO; unfold olock_free; rewrite ?P1, ?P2, ?PO; simpl); fail).
+Qed.
+
+(* the output loop on its write-error path is never stuck, and leaves the path after at most 7 own steps *)
+Lemma output_loop_error_path_not_stuck : forall s h c,
+  inv s -> keepLock s = false -> (connDL s = true \/ netBroken s = true) -> pO s = LErr h c ->
+  h = false /\ exists s', step TO s = Some s' /\ mO (pO s') < mO (pO s) /\ mO (pO s) <= 7 + (match c with CGrace n => n + 1 | _ => 0 end).
+Proof.
+  intros s h c [I1 I2 I3 I4 I5] K N PO.
+  assert (NO : net_ok s = true) by (unfold net_ok; destruct N as [N|N]; rewrite N; auto with bool).
+  assert (Hh : h = false) by (rewrite (I5 _ _ PO); exact K). subst h. split; [reflexivity|].
+  simpl. rewrite PO.
+  destruct c; simpl.
+  - destruct (closeRequested s); [|destruct (attached s)]; eexists; (split; [reflexivity|]); simpl; lia.
+  - eexists; (split; [reflexivity|]); simpl; lia.
+  - assert (F : olock_free s = true).
+    { unfold olock_free. rewrite PO. rewrite PO in I3. simpl in I3.
+      destruct (pC1 s), (pC2 s); simpl in *; try reflexivity; destruct (closedChan s), (closeRequested s); simpl in *; lia. }
+    rewrite F. eexists; (split; [reflexivity|]); simpl; lia.
+  - rewrite NO. eexists; (split; [reflexivity|]); simpl; lia.
+  - eexists; (split; [reflexivity|]); simpl; lia.
+  - eexists; (split; [reflexivity|]); simpl; lia.
+Qed.
+
+(* the variant that keeps oLock across closeWithError(err) (defer Unlock): the first write error on a session that
+   nobody closed yet dead-locks the output loop against itself; closeRequested is set, closedChan never closes: a
+   waiting Read has no exit, a later Close is a no-op, the underlay Close waits for the session loops for ever *)
+Definition self_deadlock_trace : list label :=
+  [ACallRead; ENetBreak; TO; TO; TO; ACallClose1; ACallUnderlayClose; TU; TU].
+
+Lemma output_error_close_keep_lock_deadlocks :
+  exists s, run (init_v true true true) self_deadlock_trace = Some s
+    /\ pO s = LErr true COLock /\ closeRequested s = true /\ closedChan s = false /\ outputErr s = true
+    /\ pR s = RWait false /\ pC1 s = CRet /\ pU s = UWg
+    /\ step TO s = None /\ step TC1 s = None /\ step TC2 s = None /\ step TR s = None /\ step TU s = None /\ step TI s <> None.
+Proof. vm_compute. eexists. repeat split; try reflexivity. discriminate. Qed.
+
+(* the same trace under the code's discipline (lock released first) ends with everything closed and returned *)
+Lemma output_error_close_code_completes :
+  exists s, run (init true true) (self_deadlock_trace ++ [TO; TO; TO; TO; TO; TI; TR; TU]) = Some s
+    /\ closedChan s = true /\ nclosed s = 1 /\ pO s = LExited /\ pI s = LExited /\ pR s = RRet EOF /\ pU s = URet /\ udone s = true.
+Proof. vm_compute. eexists. repeat split; reflexivity. Qed.
